@@ -15,6 +15,7 @@ import os
 
 from sa import mutate as M
 from sa.consts import UNKNOWN
+from sa import pattern as PT
 from sa.ctx import Ctx
 from sa.loader import AnalysisError, call_name, norm, own_nodes, parent
 from sa.ranges import has, has_bound, refusal_constraints
@@ -75,7 +76,7 @@ def rule_constants(ctx: Ctx, rep: Report) -> None:
     r = [n for n in own_nodes(he.node) if isinstance(n, ast.Return)]
     rep.ob(rule, "bech32:hrp_expand", bool(r) and norm(r[0].value) == "[ord(x) >> 5 for x in hrp] + [0] + [ord(x) & 31 for x in hrp]", he.where(), "high bits, 0, low bits")
     cc = ctx.func(f"{BE}._create_checksum")
-    txt = norm(cc.node)
+    txt = PT.text(cc)
     rep.ob(rule, "bech32:create_checksum", "[*values, 0, 0, 0, 0, 0, 0]" in txt and "^ m" in txt and "polymod >> 5 * (5 - i) & 31 for i in range(6)" in txt.replace("(polymod >> 5 * (5 - i))", "polymod >> 5 * (5 - i)"), cc.where(), "six zero values appended, xor the constant, six 5-bit groups")
     pm = ctx.func(f"{BE}._polymod")
     rep.ob(rule, "bech32:polymod_shape", "(chk & 33554431) << 5 ^ value ^ _TAPS[chk >> 25]" in norm(pm.node), pm.where(), "chk = (chk & 0x1ffffff) << 5 ^ v ^ taps[chk >> 25]")
